@@ -210,6 +210,9 @@ func persistRule(c *Ctx, rule string, anchor *ssa.Function) {
 				switch f.Name() {
 				case "Add", "AddInt", "AddMany", "AddRange", "CheckedAdd":
 					nAdd++
+					if st.user[fmt.Sprintf("put:%d", id)] == 1 {
+						add(st, ins, "add after put", "a bitmap that has already been written to the data bucket receives further row ids: the ids of the following value end up in the previous value's bitmap (no new bitmap was started when the value index changed)")
+					}
 					st.user[fmt.Sprintf("dirty:%d", id)] = 1
 				case "ToBytes", "MarshalBinary":
 					st.inst[call] = id // the serialised bytes stand for that instance
@@ -244,6 +247,7 @@ func persistRule(c *Ctx, rule string, anchor *ssa.Function) {
 						if persistsField(c, h, h.Params[k], fi) {
 							nPut++
 							delete(st.user, fmt.Sprintf("dirty:%d", id))
+							st.user[fmt.Sprintf("put:%d", id)] = 1
 						}
 					}
 				}
@@ -265,6 +269,7 @@ func persistRule(c *Ctx, rule string, anchor *ssa.Function) {
 					if persistsParam(c, h, h.Params[k]) {
 						nPut++
 						delete(st.user, fmt.Sprintf("dirty:%d", id))
+						st.user[fmt.Sprintf("put:%d", id)] = 1
 					}
 				}
 			}
@@ -274,6 +279,7 @@ func persistRule(c *Ctx, rule string, anchor *ssa.Function) {
 					if id := st.inst[e.Tuple]; id != 0 && keyKind(c, call.Call.Args[1]) == "value" {
 						nPut++
 						delete(st.user, fmt.Sprintf("dirty:%d", id))
+						st.user[fmt.Sprintf("put:%d", id)] = 1
 					}
 				}
 			}
